@@ -145,6 +145,11 @@ class Verifier:
             mi = self.fe.module(modname)
             for f, texpr in fields.items():
                 ci.fields[f] = self.fe.parse_type(texpr, mi)
+        for name in self.db.as_record:
+            modname, cname = name.split(":")
+            ci = self.fe.class_info(modname, cname)
+            if ci is not None:
+                ci.kind = "record"
         for name in self.db.externals.get("__classes__", ()):  # classes treated as external boundaries
             modname, cname = name.split(":")
             ci = self.fe.class_info(modname, cname)
@@ -430,6 +435,9 @@ def apply_contract(eng: Engine, st: State, fv: SFunc, c: Contract, args, kwargs,
     for f in fields:
         st.heap.fields[f] = z3.Const(sym.fresh_name(f"F_{f}"), z3.ArraySort(sym.IntS, Val))
         st.written_fields.add(f)
+    for name, a in eng.contracts.aggregates.items():
+        if set(a["fields"]) & fields or f"__in_{a['over']}" in fields:
+            st.ghost["agg:" + name] = sym.fresh_int("agg_" + name)  # the callee may have changed the aggregate: re-learned from its postcondition
     for r in refs:
         st.set_dom(r, sym.fresh_const("hdom", sym.SetS))
         st.set_map(r, sym.fresh_const("hmap", sym.MapS))
